@@ -4,12 +4,14 @@ namespace Lemmas.Alter
 open Model.Alter Spec.Alter
 
 /-- all statements of an output name table reference `t` -/
-def allT (t : TRef) (o : Out) : Bool := o.stmts.all (fun st => Stmt.tref st == t)
+def allT (t : TRef) (o : Out) : Bool :=
+  o.stmts.all (fun st => Stmt.tref st == t && (Stmt.objRefs st).all (· == t))
 
 theorem compile_tref (d : Dialect) (t : TRef) (c : String) (k : Construct) (s : Stmt)
-    (h : compile d t c k = .ok s) : Stmt.tref s = t := by
+    (h : compile d t c k = .ok s) : Stmt.tref s = t ∧ (Stmt.objRefs s).all (· == t) = true := by
   cases k <;> cases d <;> simp [compile, Dialect.isMySQL] at h <;>
-    (try (repeat' split at h)) <;> simp_all [Stmt.tref] <;> (try (subst h; simp [Stmt.tref]))
+    (try (repeat' split at h)) <;> simp_all [Stmt.tref, Stmt.objRefs] <;>
+    (try (subst h; simp [Stmt.tref, Stmt.objRefs]))
 
 theorem allT_ok (t : TRef) : allT t Out.ok = true := rfl
 theorem allT_fail (t : TRef) (e : Err) : allT t (Out.fail e) = true := rfl
@@ -32,9 +34,9 @@ theorem emitAll_allT (d : Dialect) (t : TRef) (c : String) (ks : List Construct)
     cases hc : compile d t c k with
     | error e => rfl
     | ok s =>
-      have h1 := compile_tref d t c k s hc
+      obtain ⟨h1, h2⟩ := compile_tref d t c k s hc
       simp only [allT, List.all_cons, Bool.and_eq_true, beq_iff_eq] at *
-      exact ⟨h1, ih⟩
+      exact ⟨⟨h1, h2⟩, ih⟩
 
 theorem implAlter_allT (d : Dialect) (r : Req) : allT (tref r) (implAlter d r) = true := by
   cases d with
@@ -88,7 +90,7 @@ theorem typeConstraint_allT (d : Dialect) (t : TRef) (c : String) (ty : Ty) :
   cases ty.ck with
   | none => exact ⟨rfl, rfl⟩
   | some nm =>
-    cases nm <;> cases d <;> simp [allT, Out.ok, Out.fail, emitAll, compile, Stmt.tref]
+    cases nm <;> cases d <;> simp [allT, Out.ok, Out.fail, emitAll, compile, Stmt.tref, Stmt.objRefs]
 
 theorem alterColumn_allT (d : Dialect) (r : Req) :
     allT (tref r) (alterColumn d r) = true := by
